@@ -47,6 +47,8 @@ Definition run_glwe_sk (compressed : bool) (ps : list Z) (vs : list (list Z)) : 
   let sk := chunks n rank (v vs 1) in
   let us := stream (v vs 2) in
   let e := v vs 3 in
+  (* glwe_encrypt_sk / glwe_compressed_encrypt_sk: assert_eq!(pt.base2k(), res.base2k()) *)
+  if negb (p ps 7 =? b) then None else
   if compressed then
     match enc_sk_compressed wb b n size rank nk (Some (pt, O)) sk us e with
     | None => None
@@ -72,6 +74,8 @@ Definition run_lwe_sk (ps : list Z) (vs : list (list Z)) : option (list (list Z)
   let dsize := np ps 8 in let db := p ps 9 in
   let pt := v vs 0 in let s := v vs 1 in let us := stream (v vs 2) in let e := nthZ (v vs 3) 0 in
   let a := lwe_mask b n size us in
+  (* lwe_encrypt_sk: assert_eq!(pt.base2k(), res.base2k()) *)
+  if negb (p ps 7 =? b) then None else
   match lwe_enc_body b size nk pt s a e with
   | None => None
   | Some body =>
